@@ -4,6 +4,7 @@ mod canon;
 mod evidence;
 mod grammar;
 mod hashseed;
+mod nbh_mc;
 mod oracles;
 mod pool;
 mod sched_mc;
@@ -13,6 +14,7 @@ mod spec;
 mod stages;
 mod sweep;
 mod tour_mc;
+mod trans_mc;
 
 use serde_json::{json, Value};
 use sweep::SweepSpec;
@@ -59,6 +61,14 @@ fn check(prop: &str, tier: &str) -> i32 {
     if prop == "C06" {
         return c06(tier);
     }
+    if prop == "C11" {
+        pool::install_panic_recorder_thread();
+        return nbh_mc::check(tier);
+    }
+    if prop == "C15" {
+        pool::install_panic_recorder_thread();
+        return c15(tier);
+    }
     if prop == "C12" {
         pool::install_panic_recorder_thread();
         return tour_mc::check(tier);
@@ -71,6 +81,31 @@ fn check(prop: &str, tier: &str) -> i32 {
         return sweep::check(s, tier);
     }
     evidence::machinery_error(prop, "no check implemented for this property");
+}
+
+fn c15(tier: &str) -> i32 {
+    let mut report = evidence::Report::new("C15", tier, "model_checking");
+    trans_mc::run_into(&mut report, tier);
+    // optimiser part: every transition produced in the solve pipeline (instances with maintenance)
+    if std::env::var("RSV_ONLY_EXPLORE").is_ok() {
+        return report.finish();
+    }
+    let s = SweepSpec {
+        prop: "C15",
+        kind: "solve",
+        only_maintenance: true,
+        level: "model_checking",
+        rule: "",
+        assumptions: vec![],
+        failures_are_verdicts: false,
+        exe: None,
+        extra_label: "pipeline",
+    };
+    sweep::run(&s, tier, &mut report);
+    report.cov("rule", json!("(1) Explicit-state BFS over real Transition values: from the empty transition all sequences of new_fast (every vehicle subset), update_vehicle (every tour variant; also two in a row through updated_tours), add_vehicle_to_own_cycle, remove_vehicle, add_vehicle_at_the_end (every cycle index incl. empty ones), move_vehicle, three_opt (all i<j<k) + replace_cycle up to the depth, on 4 vehicles with 2-3 tour variants each (with/without maintenance, different depots, overflow depot); every transition checked against a reference list of cycles, the successor lookup, counters recomputed from the input, a behavioural probe of the reusable-empty-cycle list and the code's own verify_consistency. (2) The optimiser: on every instance of the grammar with maintenance x hash seed, the transition handed to and returned by build_transition_local_search_solver inside the real pipeline (hook H2): same vehicles, internally exact, (violation, counter) not worse. evaluations / distinct_nontrivial count part (2): non-trivial = the optimiser changed a cycle."));
+    report.assume("exploration bounded by depth and by the fixed vehicle/tour-variant set; the statement's 'randomly beyond' part is not performed");
+    report.assume("part (2) shares the instance grammar, hash seeds and watchdog of the sweep engine");
+    report.finish()
 }
 
 fn c06(tier: &str) -> i32 {
@@ -109,6 +144,14 @@ fn main() {
                 let path = args.get(4).cloned().unwrap_or_default();
                 let engine = std::fs::read_to_string(&path).ok().and_then(|t| serde_json::from_str::<Value>(&t).ok()).and_then(|v| v.get("engine").and_then(|e| e.as_str()).map(|s| s.to_string()));
                 match engine.as_deref() {
+                    Some("nbh-mc") => {
+                        pool::install_panic_recorder_thread();
+                        nbh_mc::replay(&path)
+                    }
+                    Some("trans-mc") => {
+                        pool::install_panic_recorder_thread();
+                        trans_mc::replay(&path)
+                    }
                     Some("tour-mc") => {
                         pool::install_panic_recorder_thread();
                         tour_mc::replay(&path)
